@@ -5,3 +5,4 @@ pub mod c31;
 pub mod c32;
 pub mod c33;
 pub mod c36;
+pub mod chain;
